@@ -226,11 +226,12 @@ func ExpressionPrecedence(expr ExpressionNode) uint8 {
 		*ReceiverlessMethodCallNode, *NilSafeSubscriptExpressionNode,
 		*SubscriptExpressionNode, *CallNode, *AttributeAccessNode,
 		*GenericMethodCallNode, *MethodCallNode,
-		*MacroCallNode, *ReceiverlessMacroCallNode, *ScopedMacroCallNode:
+		*MacroCallNode, *ReceiverlessMacroCallNode:
 		return 210
 	case *ConstructorCallNode, *GenericConstructorCallNode:
 		return 220
-	case *ConstantLookupNode, *MethodLookupNode, *InstanceMethodLookupNode:
+	case *ConstantLookupNode, *MethodLookupNode, *InstanceMethodLookupNode,
+		*ScopedMacroCallNode:
 		return 230
 	}
 
